@@ -583,6 +583,14 @@ func ruleDecoderGuard(c *Ctx, fns []*ssa.Function) {
 					continue
 				}
 				callee := call.Call.StaticCallee()
+				if callee == nil && call.Call.IsInvoke() {
+					// the decoder behind an interface of the repository: what the call can dispatch to
+					for _, t := range c.P.InvokeTargets(call) {
+						if t.Pkg != nil && strings.Contains(t.Pkg.Pkg.Path(), "pelletier/go-toml") {
+							callee = t
+						}
+					}
+				}
 				if callee == nil || callee.Pkg == nil || !strings.Contains(callee.Pkg.Pkg.Path(), "pelletier/go-toml") {
 					continue
 				}
